@@ -426,7 +426,17 @@ func (sc *scenario) hostilePacket() []byte {
 	case 15:
 		return ack4(0x40, 0x8000|uint16((sc.seen1+1)&0x3fff))
 	}
-	switch sc.r.intn(10) {
+	switch sc.r.intn(12) {
+	case 10, 11:
+		// a packet that is not a PUBLISH but announces (and delivers) more than the read buffer
+		// holds; its body looks like the head of a PUBLISH
+		n := sc.opts.bufSize + 20 + sc.r.intn(40)
+		if sc.opts.bufSize <= 0 || sc.opts.bufSize > 4096 {
+			n = 300
+		}
+		body := append([]byte{0, 5, 'f', 'o', 'r', 'g', 'e', 0x12, 0x34}, sc.r.bytes(n-9)...)
+		head := []byte{0x40, 0x62, 0x90, 0xb0, 0xd0}[sc.r.intn(5)]
+		return append(append([]byte{head}, c06Varint(n)...), body...)
 	case 0:
 		return []byte{0x00, 0} // reserved type
 	case 1:
@@ -849,6 +859,11 @@ func spoolLeftovers(dir string, keys []uint) {
 	junk := bytes.Repeat([]byte("leftover of an interrupted save "), 40)
 	for _, k := range keys {
 		os.WriteFile(filepath.Join(dir, fmt.Sprintf("%05x.spool", k)), junk, 0o644)
+	}
+	// entries that have nothing to do with the store (C16 "unrelated entries"), among them names
+	// as long as a key's but not hexadecimal, and hexadecimal ones beyond the key space
+	for _, n := range []string{".lock", "notes", "zzzzz", "fffff", "README", ".DS_Store", "x"} {
+		os.WriteFile(filepath.Join(dir, n), []byte("not a record"), 0o644)
 	}
 }
 
